@@ -16,14 +16,14 @@
      dec_set_c          dec_set instrumented with (entries whose 12-byte header was read, oracle outputs received)
 
      grow / gstep / grun the consumer's buffer rule and its reaction to fetch answers (Model/FetchGrow.v)
-     chain o outs       the Deliver outputs of a trace are consecutive offset ranges starting at o; Some (next offset)
-     fetches_follow     every Fetch output asks for the offset right after the last delivered message
+     accept / deliver / delivered / from / honest_run    see section 4
 
    The consumer part is stated on the small model Model/FetchGrow.v (consumer.py:925-996,1093-1104 only), which has
    its own correspondence against the real Consumer in harness/props/C12.py; the full consumer machine and the
    numerical law (x16 up to 1 MiB, then x2, clipped) as part of it are property C14.  Response decoders
    (Model/Responses.v, owned by C05) are compared with the implementation on hostile inputs by harness/props/C12.py;
    the theorems of section 3 are about the message-set decoder, the primitive readers and counted loops. *)
+From Coq Require Import Sorted.
 From AV Require Import Base.Util Model.Prim Model.Crc Model.MsgSet Model.FetchGrow Model.Responses
      Proofs.PrimFacts Proofs.CrcBurst Proofs.DecodeTotal Proofs.Truncation Proofs.FetchGrowFacts Proofs.C12Resp.
 
@@ -264,27 +264,47 @@ Theorem C12_resp_never_out_of_fuel : forall data,
 Proof. exact resp_decoders_never_out_of_fuel. Qed.
 Print Assumptions C12_resp_never_out_of_fuel.
 
-(* ================================================================== 4. the consumer enlarges its buffer rather than skipping *)
+(* ================================================================== 4. the consumer enlarges its buffer rather than skipping
+   Model/FetchGrow.v.  An answer is [Reply offs tail]: the offsets the set decoder yields for it (ANY integers, in any
+   order: heads of wrappers below the fetch offset, gaps...) and how the iteration ends (Clean / TooSmallTail /
+   CorruptTail); [accept fo offs] = (offsets kept, new fetch offset) is the loop consumer.py:941-957. *)
 
-(* one answer that holds not even one complete message: the SAME offset is requested again with a strictly larger
-   buffer (never above the configured maximum) - or, exactly when the buffer already is at the maximum, the start
-   Deferred fails and nothing is requested *)
-Theorem C12_consumer_grows : forall mb s s' outs,
-  g_failed s = false -> 0 < g_buf s -> gstep mb s TooSmall = (s', outs) ->
-  (exists b, outs = [Fetch (g_off s) b] /\ g_buf s < b /\ (forall m, mb = Some m -> b <= m)
-             /\ s' = mkG (g_off s) b false)
-  \/ (outs = [StartFailed] /\ (exists m, mb = Some m /\ m <= g_buf s) /\ s' = mkG (g_off s) (g_buf s) true).
+(* an answer that ends in ConsumerFetchSizeTooSmall - with or without messages before it: what was collected is handed to
+   the processor, and then the offset right after it (the SAME offset when nothing was collected) is requested again with
+   a strictly larger buffer, never above the configured maximum - or, exactly when the buffer already is at the maximum,
+   the start Deferred fails and nothing is requested *)
+Theorem C12_consumer_grows : forall mb s offs s' outs,
+  g_failed s = false -> 0 < g_buf s -> gstep mb s (Reply offs TooSmallTail) = (s', outs) ->
+  let dl := fst (accept (g_off s) offs) in let fo := snd (accept (g_off s) offs) in
+  (dl = [] -> fo = g_off s) /\
+  ((exists b, outs = deliver dl ++ [Fetch fo b] /\ g_buf s < b /\ (forall m, mb = Some m -> b <= m)
+              /\ s' = mkG fo b false)
+   \/ (outs = StartFailed :: deliver dl /\ (exists m, mb = Some m /\ m <= g_buf s) /\ s' = mkG fo (g_buf s) true)).
 Proof. exact toosmall_step. Qed.
 Print Assumptions C12_consumer_grows.
 
-(* over any sequence of answers: what is handed to the processor is one gap-free run of offsets from the start offset
-   to the final fetch offset, and every request asks for the offset right after the last delivered message *)
-Theorem C12_consumer_never_skips : forall mb evs s s' outs,
-  grun mb s evs = (s', outs) -> chain (g_off s) outs = Some (g_off s') /\ fetches_follow (g_off s) outs = true.
-Proof. intros mb evs s s' outs H. split; [exact (run_chain mb evs s s' outs H) | exact (run_follow mb evs s s' outs H)]. Qed.
-Print Assumptions C12_consumer_never_skips.
+(* over ANY sequence of answers (also dishonest ones, also answers that deliver a prefix and then end in
+   ConsumerFetchSizeTooSmall or in a decoding error, across every refetch and every buffer growth): no offset reaches the
+   processor twice or out of order, and all lie between the start offset and the final fetch offset *)
+Theorem C12_consumer_no_repeat : forall mb evs s s' outs, grun mb s evs = (s', outs) ->
+  g_off s <= g_off s' /\ StronglySorted Z.lt (delivered outs) /\
+  Forall (fun o => g_off s <= o < g_off s') (delivered outs).
+Proof. exact run_no_repeat. Qed.
+Print Assumptions C12_consumer_no_repeat.
 
-(* without a maximum the buffer at least doubles per such answer: it exceeds any message size after finitely many *)
+(* nothing is skipped.  The partition holds messages at the strictly increasing offsets L (gaps allowed).  Whenever every
+   answer is HONEST - some messages below the requested offset (the head of a wrapper), then a run of the log's messages
+   from the requested offset on, as many as fitted (possibly none), then any of the three endings - what reached the
+   processor so far, followed by what the log holds from the current fetch offset on, IS the log from the start offset on:
+   the refetch after a too-small or damaged answer resumes exactly behind the last message handed over *)
+Theorem C12_consumer_no_skip : forall L mb, StronglySorted Z.lt L -> forall evs s s' outs,
+  honest_run L mb s evs -> grun mb s evs = (s', outs) ->
+  from (g_off s) L = delivered outs ++ from (g_off s') L.
+Proof. exact run_no_skip. Qed.
+Print Assumptions C12_consumer_no_skip.
+
+(* without a maximum the buffer at least doubles per cut-in-the-first-entry answer: it exceeds any message size after
+   finitely many *)
 Theorem C12_consumer_reaches_any_size : forall n s s' outs,
   g_failed s = false -> 0 < g_buf s -> grun None s (repeat TooSmall n) = (s', outs) ->
   g_failed s' = false /\ g_off s' = g_off s /\ 2 ^ Z.of_nat n * g_buf s <= g_buf s' /\ length outs = n.
@@ -377,12 +397,27 @@ Example hostile_count :
   read_count read_i32 2 [0; 0; 0; 1; 0; 0; 0; 2; 0] = (Ok ([1; 2], [0]), 2%nat).
 Proof. vm_compute. auto. Qed.
 
-(* consumer: 100 bytes, maximum 30000, three useless answers then two messages: 100 -> 1600 -> 25600 -> 30000, then
-   failure would come next; here the fourth answer fits and offsets 7,8 are delivered, nothing skipped *)
+(* consumer: 100 bytes, maximum 30000, log = offsets 7 8 9 12 13.  Three useless answers (100 -> 1600 -> 25600 -> 30000),
+   then 7,8 arrive followed by a wrapper whose inner set is cut (TooSmallTail, at the maximum: start fails AFTER which 7,8
+   are still handed over - as the code does); a second run shows a damaged answer after 7,8 and the refetch at 9 *)
 Example grow_run :
-  snd (grun (Some 30000) (mkG 7 100 false) [TooSmall; TooSmall; TooSmall; Msgs 2; TooSmall])
-  = [Fetch 7 1600; Fetch 7 25600; Fetch 7 30000; Deliver 7 8; Fetch 9 30000; StartFailed].
+  snd (grun (Some 30000) (mkG 7 100 false) [TooSmall; TooSmall; TooSmall; Reply [7; 8] TooSmallTail; TooSmall])
+  = [Fetch 7 1600; Fetch 7 25600; Fetch 7 30000; StartFailed; Deliver [7; 8]].
 Proof. vm_compute. reflexivity. Qed.
+Example grow_run_log :
+  let L := [7; 8; 9; 12; 13] in
+  let evs := [TooSmall; Reply [7; 8] CorruptTail; Reply [5; 6; 9; 12] TooSmallTail; Reply [13] Clean] in
+  honest_run L None (mkG 7 100 false) evs /\
+  snd (grun None (mkG 7 100 false) evs)
+  = [Fetch 7 1600; Deliver [7; 8]; Fetch 9 1600; Deliver [9; 12]; Fetch 13 25600; Deliver [13]; Fetch 14 25600].
+Proof.
+  vm_compute. split; [|reflexivity].
+  repeat split; intros _.
+  - exists [], [], [7; 8; 9; 12; 13]. repeat split; constructor.
+  - exists [], [7; 8], [9; 12; 13]. repeat split; constructor.
+  - exists [5; 6], [9; 12], [13]. repeat split; repeat constructor.
+  - exists [], [13], []. repeat split; constructor.
+Qed.
 Example grow_rule :
   map (fun bm => grow (fst bm) (snd bm))
       [(131072, None); (1048576, None); (1048577, None); (100, Some 100); (100, Some 101); (2097152, Some 3000000)]
